@@ -102,3 +102,13 @@ Definition gstep (sel : bool) (g : gen) (e : gev) : gen :=
 
 Definition grun (sel : bool) (g : gen) (evs : list gev) : gen :=
   fold_left (gstep sel) evs g.
+
+(* ---- autoDiscover over several configured subnets: one generator per accepted subnet, all
+   feeding the same channel; the estimate is the sum of computeNetSz over them (Go int, 64 bit:
+   at most 2^32 subnets of 2^30 addresses would be needed to wrap it) --------------------- *)
+Definition discover_all (nets : list (N * N)) : list N :=
+  flat_map (fun n => ip_gen (fst n) (snd n)) nets.
+Definition estimate (nets : list (N * N)) : N :=
+  fold_left (fun acc n => acc + compute_net_sz (snd n)) nets 0.
+(* what a subnet contributes when x is one of its hosts *)
+Definition is_host (x : N) (n : N * N) : bool := existsb (N.eqb x) (ip_gen (fst n) (snd n)).
